@@ -110,3 +110,85 @@ Proof.
   apply join_no_nl. apply Forall_forall. intros x Hx. apply in_map_iff in Hx as (n & <- & _).
   unfold json_note, key. nonl. apply json_span_no_nl.
 Qed.
+
+(* ---------- colours disabled: the emitter adds no escape sequence ---------- *)
+(* ESC (27) occurs in what is written only if it occurs in what the diagnostics and the sources themselves contain *)
+Definition noesc (l : str) : Prop := Forall (fun c => c <> 27%N) l.
+Lemma noesc_app a b : noesc a -> noesc b -> noesc (a ++ b).
+Proof. intros; apply Forall_app; auto. Qed.
+Lemma noesc_lit (l : str) : forallb (fun c => negb (c =? 27)%N) l = true -> noesc l.
+Proof.
+  intros H. apply Forall_forall. intros c Hc E. rewrite forallb_forall in H. specialize (H c Hc). subst c. discriminate.
+Qed.
+Lemma noesc_repeat c n : c <> 27%N -> noesc (repeat c n).
+Proof. intros H. induction n; cbn; constructor; auto. Qed.
+Lemma noesc_spaces n : noesc (spaces n).
+Proof. apply noesc_repeat. discriminate. Qed.
+Lemma noesc_dec_digits : forall fuel n acc, noesc acc -> noesc (dec_digits fuel n acc).
+Proof.
+  induction fuel as [|f IH]; intros n acc H; cbn [dec_digits]; auto.
+  assert (D : (48 + N.of_nat (n mod 10))%N <> 27%N) by (intro X; apply (f_equal (fun z => N.leb 48 z)) in X; rewrite (proj2 (N.leb_le _ _) (N.le_add_r 48 _)) in X; discriminate X).
+  destruct (Nat.ltb n 10); [constructor; auto|apply IH; constructor; auto].
+Qed.
+Lemma noesc_dec n : noesc (dec n).
+Proof. apply noesc_dec_digits. constructor. Qed.
+Lemma noesc_flat_map {A} (g : A -> str) l : (forall x, In x l -> noesc (g x)) -> noesc (flat_map g l).
+Proof. induction l as [|x l IH]; intros H; cbn; [constructor|]. apply noesc_app; [apply H; left; reflexivity|apply IH; intros; apply H; right; assumption]. Qed.
+Lemma noesc_expand_tabs l : noesc l -> noesc (expand_tabs l).
+Proof.
+  intros H. apply noesc_flat_map. intros c Hc. destruct (c =? tab)%N; [apply noesc_lit; reflexivity|].
+  constructor; [|constructor]. unfold noesc in H. rewrite Forall_forall in H. apply H, Hc.
+Qed.
+Lemma noesc_rev l : noesc l -> noesc (rev l).
+Proof. intros H. apply Forall_forall. intros c Hc. unfold noesc in H. rewrite Forall_forall in H. apply H, in_rev, Hc. Qed.
+Lemma noesc_tl_case (cur : str) : noesc cur -> noesc (match cur with x :: cur' => if (x =? 13)%N then cur' else cur | [] => cur end).
+Proof. intros H. destruct cur as [|x cur']; auto. destruct (x =? 13)%N; auto. inversion H; auto. Qed.
+Lemma noesc_lines_aux : forall t cur, noesc t -> noesc cur -> Forall noesc (lines_aux t cur).
+Proof.
+  induction t as [|c r IH]; intros cur Ht Hc; cbn [lines_aux].
+  - destruct cur; constructor; [apply noesc_rev; assumption|constructor].
+  - inversion Ht as [|? ? Hc0 Hr]; subst. destruct (c =? 10)%N.
+    + constructor; [apply noesc_rev, noesc_tl_case, Hc|apply IH; [assumption|constructor]].
+    + apply IH; [assumption|constructor; assumption].
+Qed.
+Lemma noesc_highlight line hs he : noesc (highlight line hs he).
+Proof.
+  unfold highlight. destruct (Nat.eqb hs he).
+  - apply noesc_app; [apply noesc_spaces|apply noesc_lit; reflexivity].
+  - apply noesc_app; [apply noesc_spaces|apply noesc_repeat; discriminate].
+Qed.
+Lemma noesc_snippet text x : noesc text -> noesc (snippet text x).
+Proof.
+  intros Ht. unfold snippet.
+  repeat apply noesc_app; try apply noesc_spaces; try (apply noesc_lit; reflexivity).
+  apply noesc_flat_map. intros i _. destruct (nth_error (text_lines text) i) as [line|] eqn:E; [|constructor].
+  assert (Hl : noesc line).
+  { apply nth_error_In in E. pose proof (noesc_lines_aux text [] Ht (Forall_nil _)) as F. rewrite Forall_forall in F. apply F, E. }
+  repeat apply noesc_app;
+    first [apply noesc_spaces | apply noesc_dec | apply noesc_highlight | apply noesc_expand_tabs, Hl
+          | (unfold pad_right; apply noesc_app; [apply noesc_dec|apply noesc_spaces]) | (apply noesc_lit; reflexivity)].
+Qed.
+Definition files_noesc (files : list (str * str)) : Prop := forall f, In f files -> noesc (snd f).
+Lemma noesc_emit_snippet files x : files_noesc files -> noesc (sp_file x) -> noesc (emit_snippet files x).
+Proof.
+  intros Hf Hx. unfold emit_snippet. repeat apply noesc_app; auto; try (apply noesc_lit; reflexivity); try apply noesc_dec.
+  match goal with |- context [find ?p files] => destruct (find p files) as [f|] eqn:E end; [|constructor]. apply find_some in E as [Hin _].
+  apply noesc_app; [apply noesc_snippet, Hf, Hin|apply noesc_lit; reflexivity].
+Qed.
+Definition span_noesc (o : option span) : Prop := match o with Some x => noesc (sp_file x) | None => True end.
+Definition ediag_noesc (d : ediag) : Prop :=
+  noesc (e_code d) /\ noesc (e_msg d) /\ span_noesc (e_span d) /\ forall n, In n (e_notes d) -> noesc (n_msg n) /\ span_noesc (n_span n).
+Theorem human_adds_no_escape files d : files_noesc files -> ediag_noesc d -> noesc (human_diag files d).
+Proof.
+  intros Hf (Hc & Hm & Hs & Hn). unfold human_diag. repeat apply noesc_app; auto; try (apply noesc_lit; reflexivity).
+  - destruct (e_level d); apply noesc_lit; reflexivity.
+  - destruct (e_span d) as [x|]; [apply noesc_emit_snippet; assumption|constructor].
+  - apply noesc_flat_map. intros n Hin. destruct (Hn n Hin) as [H1 H2].
+    repeat apply noesc_app; auto; try (apply noesc_lit; reflexivity).
+    destruct (n_span n) as [x|]; [apply noesc_emit_snippet; assumption|constructor].
+Qed.
+Corollary emit_human_no_escape files ds : files_noesc files -> Forall ediag_noesc ds -> Forall noesc (emit_human files ds).
+Proof.
+  intros Hf Hd. rewrite emit_human_once_in_order. apply Forall_forall. intros l Hl. apply in_map_iff in Hl as [d [<- Hin]].
+  apply filter_In in Hin as [Hin _]. rewrite Forall_forall in Hd. apply human_adds_no_escape; auto.
+Qed.
